@@ -23,6 +23,7 @@ import SSEPyVerif.Proofs.Schemes.SSE1
 import SSEPyVerif.Proofs.Schemes.Pi2Lev
 import SSEPyVerif.Proofs.Schemes.DP17
 import SSEPyVerif.Proofs.Schemes.DP17Exact
+import SSEPyVerif.Proofs.Schemes.DP17Cells
 import SSEPyVerif.Proofs.Schemes.ChainComplete
 import SSEPyVerif.Proofs.Schemes.CT14Complete
 import SSEPyVerif.Proofs.Schemes.PiPtrComplete
@@ -302,6 +303,28 @@ theorem DP17.search_stored (raw : RawCfg) (cfg : DP17Cfg) (hcfg : DP17.cfgBuild 
     ∃ res, DP17.search cfg lv edb [tag, vtag, etag] = .ok res ∧ ∀ id, id ∈ res ↔ id ∈ ids :=
   DP17.search_exact cfg lv raw hcfg hl k1 k2 k3 db t t' edb hs hkeys hidl hinj hperm hfresh w ids hm tag vtag etag htk
     hclean hbeyond
+
+/-- DP17 with the cryptographic assumption in its textbook form.  `ProbesClean` is DERIVED: every bucket of every level array
+    is a whole number of cells, each a random draw of the run or `Enc(F_k3(w'), iv, id' ‖ 0^λ)` of a posting of the database
+    (`DP17.setup_cells`); a cell of this keyword decrypts to its own identifier, and `WrongKeyRejected` says that under
+    `F_k3(w)` trial decryption accepts neither a dummy nor another keyword's ciphertext.  So: the search of a stored keyword
+    returns, and its result is exactly the keyword's list (as a set).  (`WrongKeyRejected` speaks about cells the real search
+    never decrypts, so the driver cannot evaluate it from a recorded run; it evaluates `ProbesClean` itself — `search_stored`.) -/
+theorem DP17.search_stored_of_wrongKey (raw : RawCfg) (cfg : DP17Cfg) (hcfg : DP17.cfgBuild raw = .ok cfg) (lv : Leaves)
+    (hl : LeafLaws lv) (k1 k2 k3 : Bytes) (db : DB) (t t' : Tape) (edb : DP17EDB)
+    (hs : DP17.setup cfg lv [k1, k2, k3] db t = .ok (edb, t')) (hkeys : (db.map (·.1)).Nodup)
+    (hidl : ∀ p ∈ db, ∀ id ∈ p.2, (id.length : Int) = cfg.idSize)
+    (hinj : ∀ levels, DP17.levelsOf cfg db.total = .ok levels → DP17.KeyInj cfg lv k1 levels db) (hperm : DP17.PermsGood t)
+    (hfresh : ∀ levels, DP17.levelsOf cfg db.total = .ok levels → ∀ b, Draw.bytes b ∈ t → ∀ w ids c, (w, ids) ∈ db → 1 ≤ c →
+      c ≤ DP17.nChunks cfg levels ids → DP17.htKey cfg lv k1 w c ≠ .ok b)
+    (w : Bytes) (ids : List Bytes) (hm : (w, ids) ∈ db) (tag vtag etag : Bytes)
+    (htk : DP17.token cfg lv [k1, k2, k3] w = .ok [tag, vtag, etag])
+    (hwk : DP17.WrongKeyRejected cfg lv k3 db t w etag)
+    (hbeyond : ∀ levels, DP17.levelsOf cfg db.total = .ok levels → ∀ c, DP17.nChunks cfg levels ids < c → c ≤ cfg.L.toNat →
+      ∃ key, DP17.hashH cfg lv (tag ++ natToBytesMin c) = .ok key ∧ edb.HT.get key = none) :
+    ∃ res, DP17.search cfg lv edb [tag, vtag, etag] = .ok res ∧ ∀ id, id ∈ res ↔ id ∈ ids :=
+  DP17.search_exact cfg lv raw hcfg hl k1 k2 k3 db t t' edb hs hkeys hidl hinj hperm hfresh w ids hm tag vtag etag htk
+    (DP17.probesClean_of_wrongKey cfg lv raw hcfg hl k1 k2 k3 db t t' edb hs hkeys hidl w ids hm tag vtag etag htk hwk) hbeyond
 
 /-- without the two run-specific facts the probes of the stored chunks still all return (this part has no cryptographic
     hypothesis beyond key distinctness): the number of chunks is at most `L` and each probe finds its bucket -/
